@@ -14,6 +14,7 @@ import math
 import inspect
 import json
 import sys
+import threading
 import traceback
 
 sys.path.insert(0, __file__.rsplit("/", 1)[0])
@@ -138,12 +139,17 @@ class World:
         self.objs = {}
         self.keep = []
         self.susp = 0
+        self.hung = []
         self.pending_throw = None
         self.no_retry = bool(shared.seq["policies"][call["policy"]].get("no_retry"))
 
     # ---- identity bookkeeping ----
     loop_task = None
     loop_cancel = None
+
+    def release_hung(self):
+        for ev in self.hung:
+            ev.set()
 
     def remember(self, obj, tag, att):
         self.objs[id(obj)] = (tag, att)
@@ -205,7 +211,11 @@ class World:
             # the instant of the timeout; the thread then outlives the real timeout without touching anything.
             t = self.cfg["att_timeout"]
             CLOCK.ticks = self.op_start + t
-            vclock.REAL_SLEEP(t * vclock.TICK + 0.6)
+            # blocks until the run has moved on (the classifier sees the runner's TimeoutError, or the call ends): never
+            # completes before the real timeout, however late the waiting thread is scheduled
+            ev = threading.Event()
+            self.hung.append(ev)
+            ev.wait(30.0)
             return None
         return self.op_finish(att, kind, klass)
 
@@ -232,6 +242,7 @@ class World:
         return Classification(klass=k, retry_after_s=None if ra is None else ra * vclock.TICK)
 
     def classifier(self, exc):
+        self.release_hung()
         r = self.objs.get(id(exc))
         if r is None and isinstance(exc, TimeoutError):
             cur = nth(self.env["ops"], self.invocations - 1, None)
@@ -734,6 +745,7 @@ def run_sequence(seq):
             deliv = enc_exception(w, e)
             if deliv[0] == "other_exc":
                 deliv.append(traceback.format_exc()[-1500:])
+        w.release_hung()
         extra = {}
         if shared.breaker is not None:
             extra["breaker_state"] = shared.breaker._state.name
